@@ -88,7 +88,7 @@ def r_layout(ctx) -> RuleResult:
                  detail=f"sequence ascending: {e['asc']}" + (f", endpoints ascending: {e['pair_asc']}" if e["what"] == "edges" else ""))
         if not ok:
             if not e["asc"]:
-                msg = ("bond tuples" if e["what"] == "edges" else "attribute blocks") + " are not emitted in ascending order (the sequence is not the result of a plain sorted())"
+                msg = ("bond tuples" if e["what"] == "edges" else "attribute blocks") + " are not emitted in ascending order of the atom indices (the sequence is not sorted by the index itself: it is sorted some other way, or as text)"
             else:
                 msg = "the two endpoints of a tuple are not emitted smaller-first (the pair is not the result of a plain sorted())"
             res.fail(Finding("R-LAYOUT", fi.module.rel, fi.qualname, norm(node), msg, line=getattr(node, "lineno", None)))
